@@ -751,7 +751,7 @@ macro_rules! guarded {
 }
 
 pub fn run(ctx: &mut Ctx) {
-    ctx.rule = "values generated per format with distinct non-default field values (boundary integers, all enum variants, 0..255 slips, payloads to 72 kB, 0..4 hops, every Message tag, real signed blocks from honest histories); oracle: decode(encode(v)) equals v on all serialized fields, encode(decode(b)) == b, predicted size == real size, hash / hash_for_signature / signature verdict / validity verdict (twin nodes) unchanged. non-trivial = value has >= 2 distinct non-default serialized fields (distinct by value digest)".into();
+    ctx.rule = "values generated per format with distinct non-default field values (boundary integers, all enum variants, 0..255 slips, payloads to 72 kB, 0..4 hops, every Message tag, real signed blocks from honest histories); oracle: decode(encode(v)) equals v on all serialized fields, encode(decode(b)) == b, predicted size == real size, hash / hash_for_signature / signature verdict / validity verdict (twin nodes) unchanged. non-trivial = value has >= 2 distinct non-default serialized fields (distinct by value digest) (relay) a real node with two authenticated peers receives a valid transaction whose routing path (1..3 hops) ends at it and passes it on; every Transaction message it sends must decode to the received transaction plus exactly one hop node -> recipient at the end of the path, and the path must still verify; non-trivial = the received path had >= 2 routers before the node".into();
     let n = ctx.tier.pick(1500u32, 30_000);
 
     pbt_run(ctx, "slip", n, arb_slip(), |c, g, counting| {
@@ -845,6 +845,25 @@ pub fn run(ctx: &mut Ctx) {
             Outcome::Panicked(site, msg) => panic_v("real_chain", &site, &msg),
         }
     });
+    pbt_run(ctx, "relay", ctx.tier.pick(120, 2_000), (0u8..3, prop_oneof![Just(0u64), 1u64..5000, 5_000u64..2_000_000], 0u8..3), |c, g, counting| {
+        match catch(|| rt_relay(g)) {
+            Outcome::Returned((v, relayed)) => {
+                if counting {
+                    c.eval();
+                    if relayed {
+                        c.class("relayed_transaction_observed_on_the_wire");
+                        if g.2 % 3 > 0 {
+                            c.nontrivial(&("relay", g));
+                        }
+                    } else {
+                        c.class("relay_case_without_outgoing_transaction");
+                    }
+                }
+                v
+            }
+            Outcome::Panicked(site, msg) => panic_v("relayed_transaction", &site, &msg),
+        }
+    });
     let _ = Tier::Quick;
 }
 
@@ -873,10 +892,111 @@ pub fn replay(ctx: &mut Ctx, v: &serde_json::Value) -> bool {
         "block" => go!(GBlock, |_c: &mut Ctx, g: &GBlock| guarded!("block", rt_block(g))),
         "message" => go!(GMsg, |_c: &mut Ctx, g: &GMsg| guarded!("message", rt_msg(g))),
         "misc" => go!((Vec<u8>, u64, u64, Vec<GSlip>, (u8, u8, u16), u8), |_c: &mut Ctx, g: &(Vec<u8>, u64, u64, Vec<GSlip>, (u8, u8, u16), u8)| guarded!("misc", rt_misc(g))),
+        "relay" => go!(RelayCase, |_c: &mut Ctx, g: &RelayCase| match catch(|| rt_relay(g)) {
+            Outcome::Returned((v, _)) => v,
+            Outcome::Panicked(site, msg) => panic_v("relayed_transaction", &site, &msg),
+        }),
         "real_chain" => go!(HistSpec, |c: &mut Ctx, g: &HistSpec| match catch(|| rt_real_chain(c, g, false)) {
             Outcome::Returned(v) => v,
             Outcome::Panicked(site, msg) => panic_v("real_chain", &site, &msg),
         }),
         _ => false,
     }
+}
+
+// ---------------------------------------------------------------------------
+// relay: a transaction that a node passes on keeps its routing path on the wire
+// ---------------------------------------------------------------------------
+
+/// (payer 1..3, fee, routers the transaction went through before it reached the delivering peer 0..2)
+type RelayCase = (u8, u64, u8);
+
+/// A real node (key 0, routing / verification / consensus threads) with two authenticated peers
+/// receives a valid transaction from peer A whose path ends at the node and relays it through
+/// Network::propagate_transaction. What it puts on the wire for the other peer must decode to the
+/// transaction it received plus exactly one hop (node -> recipient) at the END of the path, and the
+/// routing path must still verify: the wire form of a relayed transaction keeps value and verdict.
+fn rt_relay(case: &RelayCase) -> (V, bool) {
+    use crate::net::NetNode;
+    use saito_core::core::io::network_event::NetworkEvent;
+    use std::sync::atomic::AtomicU64;
+    use std::sync::Arc;
+    let mut v: V = vec![];
+    let (payer, fee, pre) = *case;
+    let payer = 1 + payer % 3;
+    let ncfg = crate::world::NodeCfg { gp: 100, heartbeat: 100, social_stake: 0, loading_completed: true, prune: 8 };
+    let mut builder = Node::new(ncfg, 0);
+    let g = block_on(builder.genesis(&[(1, 50_000_000), (2, 60_000_000), (3, 70_000_000), (1, 5_000_000)], 0));
+    let _ = block_on(builder.add(g.clone()));
+    let mut n = NetNode::new_with(0, ncfg, Arc::new(AtomicU64::new(1_000_000)), 0, 4, MemIO::new(), false);
+    let _ = n.init();
+    n.ct.generate_genesis_block = false;
+    let gr = n.add_direct(g);
+    if std::env::var("VERIF_TRACE").is_ok() {
+        eprintln!("relay trace: genesis on the node: {} tip {:?}", gr, n.tip().0);
+    }
+    const A: u64 = 1;
+    const C: u64 = 2;
+    n.insert_connected_peer(A, 4, "http://a/");
+    n.insert_connected_peer(C, 5, "http://c/");
+    n.take_outbox();
+    let mut reserved = std::collections::BTreeSet::new();
+    let plan = crate::world::TxPlan { payer, payee: 0, amount: 700, fee, max_inputs: 1, ts: 7_100_000 };
+    let mut tx = match crate::world::build_honest_tx(&builder, &plan, 2, &mut reserved) {
+        Some(t) => t,
+        None => return (v, false),
+    };
+    // path so far: payer -> (routers 6, 7) -> peer A (key 4) -> this node (key 0)
+    let mut ring = vec![payer];
+    for r in 0..(pre % 3) {
+        ring.push(6 + r);
+    }
+    ring.push(4);
+    ring.push(0);
+    crate::world::add_path(&mut tx, &ring);
+    let before = tx.path.len();
+    let sent_ok = tx.validate_routing_path();
+    let o1 = n.net_event(NetworkEvent::IncomingNetworkMessage { peer_index: A, buffer: Message::Transaction(tx.clone()).serialize() });
+    let o2 = n.pump();
+    // transactions are passed on by the consensus thread's timer when it does not produce a block
+    let tip_ts = block_on(n.chain_lock.read()).get_latest_block().map(|b| b.timestamp).unwrap_or(0);
+    let o3 = n.bundle(tip_ts + 1 + (pre as u64 % 2));
+    let _ = n.pump();
+    if std::env::var("VERIF_TRACE").is_ok() {
+        eprintln!("relay trace: net_event {:?} pump {:?} timer {:?}", o1, o2, o3);
+    }
+    if std::env::var("VERIF_TRACE").is_ok() {
+        let m = block_on(n.mempool_lock.read());
+        eprintln!("relay trace: pooled {} sent_ok {} outbox {}", m.transactions.len(), sent_ok, n.io.st.out.lock().unwrap().len());
+    }
+    let mut relayed = false;
+    for (idx, buf) in n.take_outbox() {
+        if let Ok(Message::Transaction(mut t2)) = Message::deserialize(buf) {
+            if t2.signature != tx.signature {
+                continue;
+            }
+            relayed = true;
+            let to = if idx == C { key(5).0 } else { key(4).0 };
+            t2.generate_hash_for_signature();
+            let mut want = tx.clone();
+            want.path.push(Hop { from: key(0).0, to, sig: [0; 64] });
+            let same_prefix = t2.path.len() == before + 1 && t2.path[..before].iter().zip(&tx.path).all(|(x, y)| hop_eq(x, y));
+            let last_ok = t2.path.last().map(|h| h.from == key(0).0 && h.to == to).unwrap_or(false);
+            if !same_prefix || !last_ok {
+                fail(&mut v, "relayed_transaction", "path_reordered_or_changed");
+            }
+            let mut a = t2.clone();
+            a.path.clear();
+            let mut b = tx.clone();
+            b.path.clear();
+            if !tx_eq(&a, &b) {
+                fail(&mut v, "relayed_transaction", "decode_ne");
+            }
+            if sent_ok && !t2.validate_routing_path() {
+                fail(&mut v, "relayed_transaction", "routing_path_verdict_lost");
+            }
+            let _ = want;
+        }
+    }
+    (v, relayed)
 }
